@@ -1,6 +1,8 @@
 package types
 
 import (
+	"math/big"
+
 	"cosmossdk.io/math"
 )
 
@@ -35,14 +37,22 @@ func Match(matchPrice math.LegacyDec, prices []math.LegacyDec, bidsByPrice map[s
 		}
 
 		for _, bid := range bidsByPrice[price.String()] {
+			biddableAmt := biddableAmtByBidder[bid.Bidder]
 			var bidAmt math.Int
 			switch bid.Type {
 			case BidTypeBatchWorth:
-				bidAmt = math.LegacyNewDecFromInt(bid.Coin.Amount).QuoTruncate(matchPrice).TruncateInt()
+				// BidAmount / MatchPrice, truncated. The quotient is calculated with big integers and
+				// limited to the bidder's biddable amount before it is converted, because a large worth
+				// bid matched at a much lower price than its own does not fit into a decimal (overflow panic).
+				quo := new(big.Int).Mul(bid.Coin.Amount.BigInt(), math.LegacyOneDec().BigInt())
+				quo.Quo(quo, matchPrice.BigInt())
+				if !biddableAmt.IsNil() && quo.Cmp(biddableAmt.BigInt()) > 0 {
+					quo = biddableAmt.BigInt()
+				}
+				bidAmt = math.NewIntFromBigInt(quo)
 			case BidTypeBatchMany:
 				bidAmt = bid.Coin.Amount
 			}
-			biddableAmt := biddableAmtByBidder[bid.Bidder]
 			matchAmt := math.MinInt(bidAmt, biddableAmtByBidder[bid.Bidder])
 
 			if res.MatchedAmount.Add(matchAmt).GT(sellingAmt) {
